@@ -9,7 +9,7 @@ use vcore::fault::{self, Resp, Scripted};
 use vcore::gen::{self, StreamCfg};
 use vcore::rt::{self, digest_str, esc, Acc, Args, Report};
 
-const RULE: &str = "A case is a history: (input, inner-writer script, driver, stream kind). Exhaustive: every input of 1..2 (thorough 3) symbols over an escape-rich symbol alphabet x every script of depth <= 3 (thorough 4) over {Accept 0,1,2,3, All, Interrupted, WouldBlock, Other} x drivers {write loop, write_vectored loop, write_all whole / in chunks, write! with several fragments and literals, write! with a failing Display, write! with a Display that keeps writing after a failed fragment} x {StripStream<Box<dyn Write>>, AutoStream::never(Box<dyn Write>)}. Random: long grammar streams x random scripts up to 40 responses. Oracle after every call: count <= buffer length; bytes accepted by the inner writer == strip(input[..consumed]); an Err carries the kind the inner writer returned in that call; Ok(0) only when the inner writer refused; at the end of a protocol-following write loop the inner writer holds exactly strip(input); write_all/write! return Ok only if everything was delivered and Err with the injected kind (WriteZero for a zero-length accept) otherwise. Non-trivial = the script produced at least one short count or error while visible bytes were pending (distinct by history).";
+const RULE: &str = "A case is a history: (input, inner-writer script, driver, stream kind). Exhaustive: every input of 1..2 (thorough 3) symbols over an escape-rich symbol alphabet x every script of depth <= 3 (thorough 4) over {Accept 0,1,2,3, All, Interrupted, WouldBlock, Other} x drivers {write loop, write_vectored loop, write_all whole / in chunks, write! with several fragments and literals, write! with a failing Display, write! with a Display that keeps writing after a failed fragment} x {StripStream<Box<dyn Write>>, AutoStream::never(Box<dyn Write>)}. Random: long grammar streams x random scripts up to 40 responses. Injected errors are represented as io::Error::new(kind, ..), io::Error::from(kind) or io::Error::from_raw_os_error(EINTR/EAGAIN), by history. Oracle after every call: count <= buffer length; bytes accepted by the inner writer == strip(input[..consumed]); an Err carries the kind the inner writer returned in that call; Ok(0) only when the inner writer refused; at the end of a protocol-following write loop the inner writer holds exactly strip(input); write_all/write! return Ok only if everything was delivered and Err with the injected kind (WriteZero for a zero-length accept) otherwise. Non-trivial = the script produced at least one short count or error while visible bytes were pending (distinct by history).";
 
 #[derive(Clone, Copy, Debug, PartialEq, Eq, Serialize, Deserialize)]
 enum Driver {
@@ -34,6 +34,9 @@ struct Hist {
     via_auto: bool,
     /// driver parameter: vectored split / write_all chunk size / fmt split
     param: u64,
+    /// representation of injected errors (vcore::fault::ErrRepr::of)
+    #[serde(default)]
+    repr: u8,
 }
 
 fn make_stream(via_auto: bool, inner: Scripted) -> Box<dyn Write> {
@@ -90,7 +93,8 @@ fn inner_faults(log: &fault::Log, calls_before: usize) -> Vec<Result<usize, Erro
 }
 
 fn check_history(input: &[u8], h: &Hist) -> Result<bool, String> {
-    let (scripted, log) = Scripted::new(&h.script);
+    let (mut scripted, log) = Scripted::new(&h.script);
+    scripted.repr = fault::ErrRepr::of(h.repr);
     let mut s = make_stream(h.via_auto, scripted);
     let full = strip_bytes_vec(input);
     let ctx = |msg: String| format!("{msg} [input {} script {:?} driver {:?} via_auto {}]", esc(input), h.script, h.driver, h.via_auto);
@@ -276,9 +280,10 @@ fn check_history(input: &[u8], h: &Hist) -> Result<bool, String> {
 }
 
 /// flush errors surface with their kind
-fn check_flush(via_auto: bool, kind: ErrorKind) -> Result<(), String> {
+fn check_flush(via_auto: bool, kind: ErrorKind, repr: u8) -> Result<(), String> {
     let (mut scripted, log) = Scripted::new(&[]);
     scripted.flush_error = Some(kind);
+    scripted.repr = fault::ErrRepr::of(repr);
     let mut s = make_stream(via_auto, scripted);
     s.write_all(b"a\x1b[1mb").map_err(|e| format!("write_all failed: {e}"))?;
     match s.flush() {
@@ -346,7 +351,7 @@ fn run(args: &Args, rep: &mut Report) {
             }
             for (driver, param, via_auto) in drivers_for(input) {
                 for script in &scripts {
-                    let h = Hist { hex: rt::hex(input), script: script.clone(), driver, via_auto, param };
+                    let h = Hist { hex: rt::hex(input), script: script.clone(), driver, via_auto, param, repr: (script.len() + script.iter().filter(|r| r.error_kind().is_some()).count()) as u8 };
                     acc.eval();
                     match rt::guarded(|| check_history(input, &h)) {
                         Ok(nt) => {
@@ -374,7 +379,7 @@ fn run(args: &Args, rep: &mut Report) {
             }
             for via_auto in [false, true] {
                 for script in &scripts {
-                    let h = Hist { hex: rt::hex(lit.as_bytes()), script: script.clone(), driver: Driver::FmtConst, via_auto, param: i as u64 };
+                    let h = Hist { hex: rt::hex(lit.as_bytes()), script: script.clone(), driver: Driver::FmtConst, via_auto, param: i as u64, repr: (i + script.len()) as u8 };
                     acc.eval();
                     match rt::guarded(|| check_history(lit.as_bytes(), &h)) {
                         Ok(nt) => {
@@ -410,15 +415,17 @@ fn run(args: &Args, rep: &mut Report) {
     let mut acc = Acc::new();
     for via_auto in [false, true] {
         for kind in [ErrorKind::Interrupted, ErrorKind::WouldBlock, ErrorKind::Other, ErrorKind::BrokenPipe] {
-            acc.eval();
-            acc.nontrivial_distinct();
-            if let Err(m) = rt::guarded(|| check_flush(via_auto, kind)) {
-                acc.fail("flush-errors", json!({"via_auto": via_auto, "kind": format!("{kind:?}")}), m);
+            for repr in 0..3u8 {
+                acc.eval();
+                acc.nontrivial_distinct();
+                if let Err(m) = rt::guarded(|| check_flush(via_auto, kind, repr)) {
+                    acc.fail("flush-errors", json!({"via_auto": via_auto, "kind": format!("{kind:?}"), "repr": repr}), m);
+                }
             }
         }
     }
     acc.samples.push(json!({"flush_error": "BrokenPipe"}));
-    rep.add("flush-errors", true, "2 stream kinds x 4 error kinds", vec![acc]);
+    rep.add("flush-errors", true, "2 stream kinds x 4 error kinds x 3 representations of the error (custom, simple, OS error number)", vec![acc]);
 
     // random long inputs x random scripts
     let strat = |cfg: StreamCfg, utf8: bool| {
@@ -438,7 +445,7 @@ fn run(args: &Args, rep: &mut Report) {
                     let bytes = gen::render(&items);
                     // the write! drivers need text; never let a generator slip become an alarm
                     let driver = if matches!(driver, Driver::Fmt | Driver::FmtLiteral | Driver::FmtFailing | Driver::FmtSloppy) && std::str::from_utf8(&bytes).is_err() { Driver::WriteAll } else { driver };
-                    (bytes.clone(), Hist { hex: rt::hex(&bytes), script, driver, via_auto, param })
+                    (bytes.clone(), Hist { hex: rt::hex(&bytes), script, driver, via_auto, param, repr: (param % 3) as u8 })
                 })
         }
     };
@@ -477,7 +484,7 @@ fn run(args: &Args, rep: &mut Report) {
                     let param = if driver == Driver::WriteAll && param != 65_536 { 0 } else { param };
                     // write_vectored hands over its first non-empty buffer only: keep that one large
                     let param = if driver == Driver::Vectored { [65_535u64, 65_536, 100_000][param as usize % 3] } else { param };
-                    (bytes.clone(), Hist { hex: rt::hex(&bytes), script, driver, via_auto, param })
+                    (bytes.clone(), Hist { hex: rt::hex(&bytes), script, driver, via_auto, param, repr: (param % 3) as u8 })
                 })
         }
     };
@@ -509,7 +516,9 @@ fn replay(sub: &str, case: &Value) -> Result<(), String> {
     if sub == "flush-errors" {
         for via_auto in [false, true] {
             for kind in [ErrorKind::Interrupted, ErrorKind::WouldBlock, ErrorKind::Other, ErrorKind::BrokenPipe] {
-                check_flush(via_auto, kind)?;
+                for repr in 0..3u8 {
+                    check_flush(via_auto, kind, repr)?;
+                }
             }
         }
         return Ok(());
